@@ -12,11 +12,14 @@ mod msops;
 mod desc;
 mod c01;
 mod c02;
+mod c04;
 mod c05;
+mod c06;
 mod c07;
 mod c08;
 mod c09;
 mod c10;
+mod c10b;
 mod c12;
 mod c14;
 mod c11expr;
@@ -41,7 +44,9 @@ fn main() {
     match prop {
         "C01" => c01::run(&mut out, thorough, seed),
         "C02" => c02::run(&mut out, thorough, seed),
+        "C04" => c04::run(&mut out, thorough, seed),
         "C05" => c05::run(&mut out, thorough, seed),
+        "C06" => c06::run(&mut out, thorough, seed),
         "C07" => c07::run(&mut out, thorough, seed),
         "C08" => c08::run(&mut out, thorough, seed),
         "C09" => c09::run(&mut out, thorough, seed),
